@@ -48,6 +48,14 @@ class TooBig(Exception):
     pass
 
 
+class SkipCase(Exception):
+    pass
+
+
+class CaseTimeout(Exception):
+    pass
+
+
 # --------------------------------------------------------------------------- reference arithmetic
 
 
@@ -199,11 +207,31 @@ def canon_real(r):
 
 
 def real_eval(d, env):
-    """-> canonical value, or 'zerodiv' when the real code raises ZeroDivisionError"""
+    """-> canonical value; 'zerodiv' / 'raised:<type>' when the real code raises (only legitimate
+    where the exact value is undefined, e.g. SymPy refuses Max(nan, ...))"""
     try:
         return canon_real(d.evaluate(env))
     except ZeroDivisionError:
         return "zerodiv"
+    except (CaseTimeout, MemoryError, RecursionError):
+        raise
+    except Exception as e:  # noqa: BLE001
+        return "raised:" + type(e).__name__
+
+
+INFRA_EXC = (CaseTimeout, MemoryError, RecursionError, SkipCase)
+
+
+def attempt(fn):
+    """('ok', value) | ('exc', 'zerodiv' | 'raised:<type>') for a call into the real code"""
+    try:
+        return ("ok", fn())
+    except INFRA_EXC:
+        raise
+    except ZeroDivisionError:
+        return ("exc", "zerodiv")
+    except Exception as e:  # noqa: BLE001
+        return ("exc", "raised:" + type(e).__name__)
 
 
 def txt(x) -> str:
@@ -296,18 +324,54 @@ def sympy_of_tree(t):
     }[op]()
 
 
+_PARSER_MSG = ("Unexpected character", "Expected ", "Unexpected token", "Unexpected end of expression", "Unknown function")
+
+
 def real_parse_outcome(s: str):
-    """('ok', dim) | ('raised', kind) | ('arith', kind) for parse_symbolic_expression(s)"""
+    """('ok', dim) | ('raised', kind): the parser rejects the text (its own ValueError, or SymPy's
+    TypeError for a wrong number of arguments) | ('arith', kind): SymPy refused to build a value while
+    the text was being parsed (ZeroDivisionError for `x % 0`, ValueError for Max(nan, ...))"""
     import onnx_ir as ir
 
     try:
         d = ir.SymbolicDim(s)
         d.free_symbols()  # forces the lazy parse
         return ("ok", d)
+    except INFRA_EXC:
+        raise
     except ZeroDivisionError as e:
         return ("arith", type(e).__name__)
+    except ValueError as e:
+        if str(e).startswith(_PARSER_MSG):
+            return ("raised", "ValueError")
+        return ("arith", "ValueError:" + str(e)[:60])
     except Exception as e:  # noqa: BLE001
         return ("raised", type(e).__name__)
+
+
+def struct_sig(e) -> str:
+    """Structural signature of a SymPy object built without evaluation: nested Max/Min are flattened
+    (the model folds `max(a, b, c)` to `max(max(a, b), c)`), arguments of commutative nodes sorted."""
+    import sympy
+
+    if not e.args:
+        return sympy.srepr(e)
+    name = type(e).__name__
+    args = list(e.args)
+    if isinstance(e, (sympy.Max, sympy.Min)):
+        flat, todo = [], args
+        while todo:
+            a = todo.pop()
+            if isinstance(a, type(e)):
+                todo.extend(a.args)
+            else:
+                flat.append(a)
+        # LatticeOp arguments are a set (duplicates collapse even without evaluation)
+        return name + "(" + ",".join(sorted({struct_sig(a) for a in flat})) + ")"
+    sigs = [struct_sig(a) for a in args]
+    if isinstance(e, (sympy.Add, sympy.Mul)):
+        sigs.sort()
+    return name + "(" + ",".join(sigs) + ")"
 
 
 def real_parse_structure(s: str):
@@ -316,7 +380,9 @@ def real_parse_structure(s: str):
 
     try:
         with sympy.evaluate(False):
-            return sympy.srepr(parse_symbolic_expression(s))
+            return struct_sig(parse_symbolic_expression(s))
+    except INFRA_EXC:
+        raise
     except Exception as e:  # noqa: BLE001
         return "raised:" + type(e).__name__
 
@@ -326,7 +392,9 @@ def model_structure(tree):
 
     try:
         with sympy.evaluate(False):
-            return sympy.srepr(sympy_of_tree(tree))
+            return struct_sig(sympy_of_tree(tree))
+    except INFRA_EXC:
+        raise
     except Exception as e:  # noqa: BLE001
         return "raised:" + type(e).__name__
 
@@ -437,6 +505,41 @@ def in_grammar(s: str) -> bool:
     # for plain identifiers would otherwise accept `N (1)`-like prefixes only inside longer
     # sentences, which the grammar does not contain (no primary is ever followed by '(')
     return earley(toks)
+
+
+def pow_safe(s: str, envs=()) -> bool:
+    """So that neither SymPy (which evaluates literals while parsing) nor the exact oracle ever
+    computes an astronomically large power.  When Python can read the text, the exact guarded
+    evaluation decides; otherwise a static bound (identifiers are bound to 1..3)."""
+    if "**" not in s:
+        return True
+    toks = lex(s)
+    if toks is not None:
+        try:
+            node = ast.parse(py_text(toks), mode="eval")
+            names = {t for k, t in toks if k == "id"}
+            for env in list(envs) + [{n: 3 for n in names}]:
+                ast_eval(node, env)
+            return True
+        except TooBig:
+            return False
+        except Exception:  # noqa: BLE001
+            pass
+    if toks is None:
+        toks = [("num", m) if m.isdigit() else ("id", m) if m[0].isalpha() or m[0] == "_" else (m, m)
+                for m in re.findall(r"\d+|[A-Za-z_][A-Za-z0-9_.]*|\*\*|.", s)]
+    npow = sum(1 for k, _ in toks if k == "**")
+    operands = [(k, t) for k, t in toks if k in ("num", "id")]
+    v = 1
+    for k, t in operands:
+        v *= max(2, int(t)) if k == "num" else 3
+        if v > 10**9:
+            return False
+    if npow == 1:
+        return v <= 10**6
+    if npow == 2:
+        return len(operands) <= 4 and all(k == "id" or int(t) <= 3 for k, t in operands)
+    return False
 
 
 def has_sqrt2(s: str) -> bool:
@@ -558,7 +661,7 @@ def all_trees(depth: int, syms, consts, unops=UN, binops=BIN):
                         continue
                     cur.append((("b", op, x[0], y[0]), True))
         by_depth.append(cur)
-    return [x[0] for lvl in by_depth for x in lvl]
+    return [x[0] for lvl in by_depth for x in lvl if x[1]]
 
 
 IDENTS = ["N", "M", "K", "batch", "seq_len", "a.b", "_x", "x1", "dim_0", "decoder_input_ids.45_dim_1",
@@ -725,17 +828,20 @@ class TreeCase:
         self.build_state = "ok"
         try:
             self.d = d = build(t)
-        except ZeroDivisionError:
-            # SymPy evaluates eagerly: a structurally zero divisor raises while building.
-            self.build_state = "zerodiv"
-            self.d = None
-            if any(r is not None for r in self.ref):
-                P.fail("build:ZeroDivisionError-on-defined-value", "building raised although the expression has a value", self.case_obj)
+        except INFRA_EXC:
+            raise
         except TypeError as e:
             self.build_state = "typeerror"
             self.d = None
             sig = "build:TypeError:" + _missing_op(t)
             P.fail(sig, f"operator overload missing or rejecting its operand: {e}", self.case_obj)
+        except Exception as e:  # noqa: BLE001
+            # SymPy evaluates eagerly: a structurally zero divisor (or a nan reaching Max/Min) raises
+            # while building.  Legitimate only when the expression has no value under any binding.
+            self.build_state = "zerodiv" if isinstance(e, ZeroDivisionError) else "raised"
+            self.d = None
+            if any(r is not None for r in self.ref):
+                P.fail("build:" + type(e).__name__ + "-on-defined-value:" + _shape_sig(t), f"building raised {type(e).__name__}: {e} although the expression has a value", self.case_obj)
         self.reqs.append({"m": "sym.eval", "e": t, "envs": [envj(e) for e in self.envs]})
         self.reqs.append({"m": "sym.pp", "e": t})
         if self.d is None:
@@ -749,8 +855,9 @@ class TreeCase:
                 break
         # oracle 2: the text form parses back to the same evaluations
         self.reparse = real_parse_outcome(self.value)
+        self.vals2 = None
         if self.reparse[0] == "ok":
-            vals2 = [real_eval(self.reparse[1], e) for e in self.envs]
+            self.vals2 = vals2 = [real_eval(self.reparse[1], e) for e in self.envs]
             for env, want, got in zip(self.envs, self.ref, vals2):
                 if want is not None and got != fr(want):
                     P.fail("print-parse:value:" + _text_sig(self.value), f"SymbolicDim({self.value!r}).evaluate({env}) = {got}, exact value {fr(want)}", self.case_obj)
@@ -768,35 +875,36 @@ class TreeCase:
                 want = ref_eval(t, full)
             except TooBig:
                 continue
-            try:
+            def _partial():
                 r1 = d.evaluate(b1)
                 if isinstance(r1, int) and not isinstance(r1, bool):
-                    got, free1, r1text = [r1, 1], [], str(r1)
-                else:
-                    got = real_eval(r1, b2)
-                    free1 = sorted(r1.free_symbols())
-                    r1text = r1.value
-                    # the residual through its text (what a saved model holds)
-                    rp = real_parse_outcome(r1text) if r1text is not None else ("raised", "None")
-                    if want is not None:
-                        if rp[0] != "ok":
-                            P.fail("partial:residual-text:" + rp[0] + ":" + _text_sig(r1text or ""), f"residual {r1text!r} of evaluate({b1}) does not parse", self.case_obj)
-                        elif real_eval(rp[1], b2) != fr(want):
-                            P.fail("partial:residual-text:value:" + _text_sig(r1text), f"residual {r1text!r} re-parsed evaluates to {real_eval(rp[1], b2)} under {b2}, exact {fr(want)}", self.case_obj)
-            except ZeroDivisionError:
-                got, free1, r1text = "zerodiv", [], None
+                    return [r1, 1], [], str(r1)
+                got = real_eval(r1, b2)
+                free1 = sorted(r1.free_symbols())
+                r1text = r1.value
+                # the residual through its text (what a saved model holds)
+                rp = real_parse_outcome(r1text) if r1text is not None else ("raised", "None")
+                if want is not None:
+                    if rp[0] != "ok":
+                        P.fail("partial:residual-text:" + rp[0] + ":" + _text_sig(r1text or ""), f"residual {r1text!r} of evaluate({b1}) does not parse", self.case_obj)
+                    elif real_eval(rp[1], b2) != fr(want):
+                        P.fail("partial:residual-text:value:" + _text_sig(r1text), f"residual {r1text!r} re-parsed evaluates to {real_eval(rp[1], b2)} under {b2}, exact {fr(want)}", self.case_obj)
+                return got, free1, r1text
+
+            st, res = attempt(_partial)
+            got, free1, r1text = res if st == "ok" else (res, [], None)
             if want is not None and got != fr(want):
                 P.fail("partial:value:" + _shape_sig(t), f"evaluate({b1}) then evaluate({b2}) = {got}, exact {fr(want)} (residual {r1text!r})", self.case_obj)
             allowed = set(tree_syms(t)) - set(b1)
-            if not set(free1) <= allowed:
+            if want is not None and not set(free1) <= allowed:
                 P.fail("partial:free-symbols", f"residual {r1text!r} has free symbols {free1}, expected a subset of {sorted(allowed)}", self.case_obj)
             self.partials.append((b1, b2, got, free1))
             self.reqs.append({"m": "sym.partial", "e": t, "b1": envj(b1), "b2": envj(b2)})
-        if not set(d.free_symbols()) <= set(tree_syms(t)):
+        if all(r is not None for r in self.ref) and not set(d.free_symbols()) <= set(tree_syms(t)):
             P.fail("free-symbols", f"free_symbols() = {sorted(d.free_symbols())} not within the tree's symbols", self.case_obj)
         # oracle 4: simplify never changes an evaluation
         if self.simplify:
-            try:
+            def _simplify():
                 ds = d.simplify()
                 for env, want in zip(self.envs, self.ref):
                     got = real_eval(ds, env)
@@ -812,9 +920,11 @@ class TreeCase:
                         if want is not None and got != fr(want):
                             P.fail("simplify:text:value:" + _text_sig(ds.value), f"simplify() text {ds.value!r} re-parsed evaluates to {got} under {env}, exact {fr(want)}", self.case_obj)
                             break
-                P.count("simplify=done")
-            except ZeroDivisionError:
-                P.count("simplify=zerodiv")
+
+            st, res = attempt(_simplify)
+            P.count("simplify=" + ("done" if st == "ok" else res))
+            if st != "ok" and all(r is not None for r in self.ref):
+                P.fail("simplify:raises:" + _text_sig(self.value), f"simplify() of {self.value!r} raises ({res}) although the dimension has a value under every binding tried", self.case_obj)
         # oracle 5: Shape lifts evaluate / simplify / free_symbols dimension-wise
         if self.shape:
             self._shape(P)
@@ -825,7 +935,7 @@ class TreeCase:
         d, env = self.d, self.envs[0]
         other = ir.SymbolicDim("K") + 1
         shp = ir.Shape([d, 7, "K", other, None])
-        try:
+        def _go():
             ev = shp.evaluate(env)
             dims = [canon_real(x) if not isinstance(x, int) else [x, 1] for x in ev.dims]
             want = [real_eval(d, env), [7, 1], real_eval(ir.SymbolicDim("K"), env), real_eval(other, env), ("symbolic", None)]
@@ -838,9 +948,11 @@ class TreeCase:
                     P.fail("shape:simplify", f"Shape.simplify() = {sv}, dimension-wise {wv}", self.case_obj)
             if shp.free_symbols() != frozenset(d.free_symbols() | {"K"}):
                 P.fail("shape:free_symbols", f"Shape.free_symbols() = {sorted(shp.free_symbols())}", self.case_obj)
-            P.count("shape=done")
-        except ZeroDivisionError:
-            P.count("shape=zerodiv")
+
+        st, res = attempt(_go)
+        P.count("shape=" + ("done" if st == "ok" else res))
+        if st != "ok" and self.ref[0] is not None:
+            P.fail("shape:raises", f"Shape.evaluate/simplify raises ({res}) although the dimension evaluates", self.case_obj)
 
     def finish(self, P: Part, outs):
         t = self.tree
@@ -864,7 +976,7 @@ class TreeCase:
             P.disagree("model pp/render/tokenize/parse round trip broke (model internal)", self.case_obj, ppo, None)
         rp = real_parse_outcome(text)
         if rp[0] == "ok":
-            got = [real_eval(rp[1], e) for e in self.envs]
+            got = [real_eval(rp[1], e) for e in self.envs[:4]]
             for g, w in zip(got, want):
                 if w is not None and g != w:
                     P.disagree("real parser on model-printed text evaluates differently from the tree", {"text": text, **self.case_obj}, w, g)
@@ -884,14 +996,14 @@ class TreeCase:
                 P.disagree("real evaluate != Lean eval of the tree", self.case_obj, w, got)
                 break
         pr = next(it)
-        self._compare_parse(P, self.value, self.reparse, self.real_struct, pr, [real_eval(self.reparse[1], e) for e in self.envs] if self.reparse[0] == "ok" else None)
+        self._compare_parse(P, self.value, self.reparse, self.real_struct, pr, self.vals2)
         for (b1, b2, got, free1) in self.partials:
             po = next(it)
             if po.get("resid") != po.get("full"):
                 P.disagree("model: eval b2 (subst b1 e) != eval (b1 u b2) e", self.case_obj, po, None)
             if po.get("resid") is not None and got != po.get("resid"):
                 P.disagree("real partial evaluate != Lean subst/eval", {"b1": b1, "b2": b2, **self.case_obj}, po.get("resid"), got)
-            if not set(free1) <= set(po.get("free", [])):
+            if po.get("resid") is not None and not set(free1) <= set(po.get("free", [])):
                 P.disagree("real residual free symbols not within the model's", {"b1": b1, **self.case_obj}, po.get("free"), free1)
 
     @staticmethod
@@ -904,20 +1016,26 @@ class TreeCase:
             if lr != "raised":
                 P.disagree("real parser raises, Lean parser accepts", case, lean, real_outcome)
             return
+        if real_outcome[0] == "arith":
+            # SymPy refused to build a value (ZeroDivisionError, Max(nan, ...)) before the parser
+            # finished: the text may or may not be in the grammar; if the model accepts it, the model
+            # tree must have no value either
+            if lr == "ok" and any(v is not None for v in lean.get("vals", [])):
+                P.disagree("real parser hit an arithmetic error, Lean tree has a value", case, lean, real_outcome)
+            return
         if lr != "ok":
             P.disagree("real parser accepts, Lean parser raises", case, lr, real_outcome)
-            return
-        if real_outcome[0] == "arith":
-            # SymPy raised ZeroDivisionError while building: the model must have no value
-            if any(v is not None for v in lean.get("vals", [])):
-                P.disagree("real parser hit ZeroDivisionError, Lean tree has a value", case, lean, real_outcome)
             return
         st = model_structure(lean.get("tree"))
         if st != real_struct:
             P.disagree("parse trees differ (SymPy objects built without evaluation)", case, st, real_struct)
         for w, g in zip(lean.get("vals", []), real_vals or []):
             if w is not None and g != w:
-                P.disagree("values of the parsed text differ", case, lean.get("vals"), real_vals)
+                if sympy_modpow_suspect(s):
+                    # SymPy's own arithmetic is wrong here (known finding D162, raised by the oracle)
+                    P.count("values_differ=sympy-Mod-of-power")
+                else:
+                    P.disagree("values of the parsed text differ", case, lean.get("vals"), real_vals)
                 break
 
 
@@ -932,6 +1050,9 @@ class StringCase:
         s = self.s
         self.case_obj = {"kind": "string", "s": s, "envs": self.envs}
         self.skip = False
+        if not pow_safe(s, self.envs):
+            P.count("skipped=power-tower")
+            raise SkipCase
         self.outcome = real_parse_outcome(s)
         self.real_struct = real_parse_structure(s) if self.outcome[0] == "ok" else None
         self.real_vals = [real_eval(self.outcome[1], e) for e in self.envs] if self.outcome[0] == "ok" else None
@@ -946,7 +1067,7 @@ class StringCase:
             return
         if ing and self.outcome[0] == "raised":
             P.fail("grammar:rejected:" + _text_sig(s), f"text {s!r} is in the documented grammar but the parser raises {self.outcome[1]}", self.case_obj)
-        if not ing and self.outcome[0] != "raised":
+        if not ing and self.outcome[0] == "ok":
             P.fail("grammar:accepted-outside:" + _text_sig(s), f"text {s!r} is outside the documented grammar but parses", self.case_obj)
         # oracle: standard meaning (Python's grammar) under every binding
         if ing and self.outcome[0] == "ok":
@@ -957,7 +1078,7 @@ class StringCase:
             if want is not None:
                 for env, w, g in zip(self.envs, want, self.real_vals):
                     if w is not None and g != w:
-                        P.fail("grammar:meaning:" + _text_sig(s), f"{s!r} evaluates to {g} under {env}; standard precedence gives {w}", self.case_obj)
+                        P.fail(("sympy-Mod-of-power:grammar:meaning" if sympy_modpow_suspect(s) else "grammar:meaning:" + _text_sig(s)), f"{s!r} evaluates to {g} under {env}; standard precedence gives {w}", self.case_obj)
                         break
                 P.count("meaning=checked")
 
@@ -1010,6 +1131,14 @@ def _shape_sig(t) -> str:
     return "+".join(ops)[:60]
 
 
+def sympy_modpow_suspect(s: str) -> bool:
+    """SymPy 1.14 evaluates Mod(2**M, 6) to 0 (also reached through floor(x/c), which it rewrites with
+    Mod): texts with a power whose exponent is not a literal, under %, //, Mod, floor or ceiling."""
+    if "**" not in s or not any(k in s for k in ("%", "//", "Mod(", "mod(", "floor(", "ceiling(", "Mod ", "mod ", "floor ", "ceiling ")):
+        return False
+    return re.search(r"\*\*\s*(?!\d+(?![\w.]))", s) is not None
+
+
 def _text_sig(s: str) -> str:
     """coarse shape of a text: function names and operator kinds present"""
     fns = sorted(set(re.findall(r"[A-Za-z_]+(?=\()", s)))
@@ -1021,21 +1150,38 @@ def _text_sig(s: str) -> str:
 
 
 def _run_chunk(arg):
+    import resource
+    import signal
+
     kind, items = arg
     P = Part()
     cases = []
+    try:
+        resource.setrlimit(resource.RLIMIT_AS, (6 << 30, 6 << 30))
+    except (ValueError, OSError):
+        pass
+
+    def _alarm(_sig, _frm):
+        raise CaseTimeout
+
+    signal.signal(signal.SIGALRM, _alarm)
     for it in items:
         if kind == "tree":
             c = TreeCase(**it)
         else:
             c = StringCase(**it)
         try:
+            signal.setitimer(signal.ITIMER_REAL, 30)
             c.prepare(P)
-        except RecursionError:
-            P.count("skipped=recursion")
+            signal.setitimer(signal.ITIMER_REAL, 0)
+        except (RecursionError, MemoryError, CaseTimeout, SkipCase) as e:
+            signal.setitimer(signal.ITIMER_REAL, 0)
+            if not isinstance(e, SkipCase):
+                P.count("skipped=" + type(e).__name__)
             c.reqs = []
             c.skip_all = True
         cases.append(c)
+    signal.setitimer(signal.ITIMER_REAL, 0)
     reqs = [r for c in cases for r in c.reqs]
     outs = lean_batch(reqs) if reqs else []
     k = 0
@@ -1093,16 +1239,16 @@ def run(ctx: Ctx) -> None:
     consts = [-2, 0, 1, 3]
     if ctx.quick:
         # depth <= 2 over 2 symbols and 4 constants is ~250k trees; the quick tier enumerates all trees of
-        # depth <= 1 and a seed-dependent 1/24 slice of depth 2, the thorough tier all of them
+        # depth <= 1 and a seed-dependent 1/96 slice of depth 2, the thorough tier all of them
         trees = all_trees(2, ["N", "M"], consts)
         d1 = [t for t in trees if tree_depth(t) <= 1]
         d2 = [t for t in trees if tree_depth(t) == 2]
-        off = ctx.seed % 24
-        sl = d2[off::24]
+        off = ctx.seed % 96
+        sl = d2[off::96]
         ex = d1 + sl
         ctx.exhaustive_scopes.append(
             f"all {len(d1)} trees of depth <= 1 over symbols N, M and constants -2, 0, 1, 3 (+ - * / // % max min, neg floor ceil trunc), "
-            f"all 16 bindings N, M in 1..4; plus slice {off}/24 ({len(sl)} of {len(d2)}) of the depth-2 trees"
+            f"all 16 bindings N, M in 1..4; plus slice {off}/96 ({len(sl)} of {len(d2)}) of the depth-2 trees"
         )
     else:
         ex = all_trees(2, ["N", "M"], consts)
@@ -1113,7 +1259,7 @@ def run(ctx: Ctx) -> None:
     for t in ex:
         tree_items.append(dict(tree=t, envs=envs16, splits=[({"N": 2}, {"M": 3}), ({"M": 1}, {"N": 4})], simplify=False, shape=False, src="exhaustive"))
     # ---- random deep trees
-    for i in range(ctx.pick(1500, 30000)):
+    for i in range(ctx.pick(500, 20000)):
         depth = rng.choice([2, 3, 3, 4, 4, 5, 6])
         nsyms = rng.choice([1, 2, 2, 3, 4])
         t = gen_tree(rng, depth, nsyms, [-7, -3, -2, -1, 0, 1, 2, 3, 4, 6, 12])
@@ -1124,11 +1270,11 @@ def run(ctx: Ctx) -> None:
     # ---- strings: grammar-directed + malformed
     for s in FIXED_MALFORMED:
         str_items.append(dict(s=s, envs=_string_envs(rng, s), src="fixed"))
-    for i in range(ctx.pick(4000, 80000)):
+    for i in range(ctx.pick(3000, 60000)):
         toks = gen_sentence(rng, rng.choice([1, 2, 2, 3, 4]))
         s = render_tokens(rng, toks, rng.choice([0, 1, 2]))
         str_items.append(dict(s=s, envs=_string_envs(rng, s), src="grammar"))
-    for i in range(ctx.pick(4000, 80000)):
+    for i in range(ctx.pick(3000, 60000)):
         s = gen_malformed(rng, rng.choice([0, 1, 2, 3]))
         str_items.append(dict(s=s, envs=_string_envs(rng, s), src="malformed"))
     ctx.count("corpus_cases", ncorpus)
@@ -1143,7 +1289,7 @@ def _string_envs(rng, s):
     names = sorted({t for k, t in toks if k == "id"})
     if s.isidentifier():
         names = [s]
-    return [{n: rng.randint(1, 6) for n in names} for _ in range(2)]
+    return [{n: rng.randint(1, 3) for n in names} for _ in range(2)]
 
 
 def _totuple(x):
